@@ -314,6 +314,8 @@ def r_guard_dominance(ctx, rid='R06.8'):
 def check(ctx):
     from . import c04
     c04.group_rule(ctx, 'R06.6', r"^(num::(NonZero)?Pow2Usize::new|<error::Span as std::convert::From<&str>>::from|<error::Span as std::convert::From<&'a pest::iterators::Pair<'_, parse::Rule>>>::from|<error::RichError as std::convert::From<pest::error::Error<parse::Rule>>>::from|types::UIntType::(byte_width|bit_width|from_bit_width)|error::Span::to_slice|<value::UIntValue as std::convert::TryFrom<&\\[u8\\]>>::try_from)$", 'functions whose results are preconditions of panic-capable sites (positions >= 1, power-of-two bounds > 1, byte widths)', 6)
+    from . import c11
+    c04.group_rule(ctx, 'R06.9', c11.LIT.pattern, 'literal converters whose range / length checks keep the panicking constructors of the dependency out of reach', 8)
     r_required_guards(ctx)
     r_guard_dominance(ctx)
     from . import binding
